@@ -1879,19 +1879,21 @@ class Workflow(Trellis):
         # or a violation.
         # Which of the two declarations came first only decides where the error is raised,
         # not what it says (see `_static_tree_file_message`).
+        # A file with the name of the tree itself, without the trailing separator, is in the
+        # way just the same: `_find_owning_static_tree` would refuse it once the tree exists.
         sql = (
             "SELECT node.i, node.label, node.creator, file.state "
             "FROM node JOIN file ON node.i = file.node "
-            f"WHERE NOT node.detached AND {clause} "
+            f"WHERE NOT node.detached AND ({clause} OR node.label = ?) "
             "ORDER BY node.label"
         )
         handover = []
         for node_i, existing_path, existing_creator, existing_state in self.db.execute(
-            sql, (pattern,)
+            sql, (pattern, path[:-1])
         ):
             if existing_state not in FILE_STATES_BY_ROLE[FileRole.STATIC]:
                 raise GraphError(_static_tree_product_message(path, existing_path))
-            if existing_creator != creator.i:
+            if existing_creator != creator.i or existing_path == path[:-1]:
                 raise GraphError(_static_tree_file_message(path, existing_path))
             handover.append(node_i)
         st = self.create(StaticTree, creator, path)
@@ -2173,10 +2175,10 @@ class Workflow(Trellis):
                     raise GraphError(f"Static trees overlap: {label} and {row[0]}")
                 sql_files = (
                     "SELECT node.label, file.state FROM node JOIN file ON node.i = file.node "
-                    f"WHERE NOT node.detached AND {clause} AND node.creator != ? "
-                    "ORDER BY node.label"
+                    f"WHERE NOT node.detached AND ({clause} OR node.label = ?) "
+                    "AND node.creator != ? ORDER BY node.label"
                 )
-                row = self.db.execute(sql_files, (pattern, node_i)).fetchone()
+                row = self.db.execute(sql_files, (pattern, label[:-1], node_i)).fetchone()
                 if row is not None:
                     if row[1] in FILE_STATES_BY_ROLE[FileRole.STATIC]:
                         raise GraphError(_static_tree_file_message(label, row[0]))
